@@ -98,6 +98,10 @@ def make(cfg, pool):
         c = alloc(cattrs.Converter)
         pool.append(c)
         return converters.get_converter(c)
+    if cfg == "user_omit":
+        c = alloc(lambda: cattrs.Converter(omit_if_default=True))
+        pool.append(c)
+        return converters.get_converter(c)
     if cfg == "user_nodetail":
         c = alloc(lambda: cattrs.Converter(detailed_validation=False))
         pool.append(c)
